@@ -74,6 +74,8 @@ def run(an: Analysis, rep):
     rep.rule("R02.4", "cell/free split", 2)
     rep.rule("R02.5", "line keyed by the first code unit", 2)
     rep.rule("R02.6", "EXTENDED_ARG accumulators are reset", 2)
+    from .common import purity
+    rep.run(purity, an, rep, "R02.P", ["from_code"])
     interps = []
     for V in VERSIONS:
         cfg = vname(V)
@@ -129,8 +131,8 @@ def run(an: Analysis, rep):
         for cat in CATEGORY_TABLE:
             rep.add("R02.2", f"{f.qual}::arm for {cat}", cat in seen_cats, loc(f.module, f.node),
                     "present" if cat in seen_cats else f"operand category {cat} has no arm: its operands are shown as raw integers", nontrivial=False, config=cfg)
-        r023(an, rep, V, f, arms, env, ref)
-        r024(an, rep, V, f, arms, env)
+        rep.run(r023, an, rep, V, f, arms, env, ref)
+        rep.run(r024, an, rep, V, f, arms, env)
     # encoder has a case per Arg member (version independent)
     it_e, _ = an.interp("to_code")
     tg = an.tg
@@ -147,8 +149,8 @@ def run(an: Analysis, rep):
     for mname in members:
         rep.add("R02.2", f"{enc[0].qual}::case for {mname}", mname in enc[1], loc(enc[0].module, enc[0].node),
                 "present" if mname in enc[1] else f"the encoder has no case for operand class {mname}", nontrivial=False)
-    r025(an, rep)
-    r026(an, rep)
+    rep.run(r025, an, rep)
+    rep.run(r026, an, rep)
     rep.stats.update(an.stats(interps))
     rep.assumptions += ["compiler output never jumps into the middle of an EXTENDED_ARG sequence (CPython's assembler targets the first unit)"]
 
